@@ -231,7 +231,14 @@ class World:
             return 'ok mw=ok'
         if op == 'rxn':
             name = toks[1]
-            rxn = self.build_rxn(toks, payload)
+            try:
+                rxn = self.build_rxn(toks, payload)
+            except ValueError:
+                raise
+            if name in self.meta.get('dup', ()):
+                failures.append({'signature': 'rxn:repeated-chemical-accepted', 'op_index': i,
+                                 'what': f'`{payload}` names a chemical twice (across or within the sides of the '
+                                         f'equation) and was accepted: stoichiometry {rxn.stoichiometry}'[:300]})
             k = int(kv(toks, 'pkg'))
             bal = self.balanced(rxn)
             self.objs[name] = dict(obj=rxn, kind='single', members=[], pkg=k, recipe=[(toks, payload)], bal=bal)
@@ -265,6 +272,32 @@ class World:
             e['obj'].basis = toks[2]
             e['recipe'].append(toks[2])
             return self.show_rxn(e['obj'], PKGS[e['pkg']]['chems'])
+        if op == 'repkg':
+            e = self.objs[toks[1]]
+            k2 = int(toks[2])
+            rxn = e['obj']
+            old_ids = PKGS[e['pkg']]['ids']; new_ids = PKGS[k2]['ids']
+            reactant_before = rxn.reactant
+            rxn.reset_chemicals(PKGS[k2]['chems'])
+            intent = self.intent_of(toks[1], e)
+            if intent is not None:
+                def move(rows):
+                    out = [['0'] * len(new_ids) for _ in rows]
+                    for r_, row in enumerate(rows):
+                        for j, c in enumerate(row):
+                            if F(c) != 0: out[r_][new_ids.index(old_ids[j])] = c
+                    return out
+                e['intent'] = dict(intent, nu=move(intent['nu']))
+                if 'plan' in intent: e['intent']['plan'] = move(intent['plan'])
+            e['pkg'] = k2
+            e['recipe'].append(('repkg', k2))
+            if rxn.reactant != reactant_before:
+                failures.append({'signature': 'rxn:reactant-changed', 'op_index': i,
+                                 'what': f'after reset_chemicals the reactant of {toks[1]} is {rxn.reactant!r}, it was '
+                                         f'{reactant_before!r}'})
+            else:
+                self.check_definition(toks[1], e, i, failures)
+            return self.show_rxn(rxn, PKGS[k2]['chems'])
         if op == 'balance':
             e = self.objs[toks[1]]
             rxn = e['obj']
@@ -308,6 +341,22 @@ class World:
             return self.call(toks, i, failures)
         raise ValueError('unknown op ' + line)
 
+    def intent_of(self, name, e):
+        """what the definition of a single reaction means (rows in the layout of its *current* package)"""
+        if 'intent' in e: return e['intent']
+        return self.meta.get('intent', {}).get(e.get('alias', name))
+
+    def reactant_pos(self, intent, obj, k):
+        """(row, column) of the reactant according to the definition; falls back to the object's own index"""
+        ru = intent.get('reactant') if intent else None
+        ids = PKGS[k]['ids']
+        if ru is not None and ru in ids:
+            col = ids.index(ru)
+            for row, r in enumerate(intent['nu']):
+                if F(r[col]) != 0: return (row, col)
+        ri = obj._reactant_index
+        return (int(ri[0]), int(ri[1])) if obj._phases else (0, int(ri))
+
     def check_rebalanced(self, name, e, i, failures):
         """after correct_atomic_balance: balanced, and still on a per-reactant basis (coefficient -1)"""
         rxn = e['obj']
@@ -326,7 +375,7 @@ class World:
 
     def check_definition(self, name, e, i, failures):
         """a single reaction still has the stoichiometry it was defined with (rescaled to its reactant)"""
-        intent = self.meta.get('intent', {}).get(e.get('alias', name))
+        intent = self.intent_of(name, e)
         rxn = e['obj']
         if intent is None or rxn._basis != intent['basis'] or e['kind'] != 'single': return
         c = np.array([[float(F(x)) for x in r] for r in intent['nu']], float)
@@ -352,7 +401,9 @@ class World:
                 toks, payload = e['recipe'][0]
                 rxn = self.build_rxn(toks, payload)
                 for b in e['recipe'][1:]:
-                    if isinstance(b, tuple):
+                    if isinstance(b, tuple) and b[0] == 'repkg':
+                        rxn.reset_chemicals(PKGS[b[1]]['chems'])
+                    elif isinstance(b, tuple):
                         cs = b[1]
                         rxn.correct_atomic_balance(constants=None if cs == '-' else cs.split(','))
                     else: rxn.basis = b
@@ -748,10 +799,9 @@ class World:
             # 3. a single reaction consumes X·feed of the reactant, the rest in stoichiometric proportion
             if e['kind'] == 'single':
                 X = float(obj.X)
-                ri = obj._reactant_index
-                ri = (int(ri[0]), int(ri[1])) if obj._phases else (0, int(ri))
+                intent = self.intent_of(name, e)
+                ri = self.reactant_pos(intent, obj, e['pkg'])      # the reactant the DEFINITION names
                 nr = vals_b[ri]
-                intent = self.meta.get('intent', {}).get(e.get('alias', name))
                 d = vals_a - vals_b
                 if intent is not None:
                     c = np.array([[float(F(x)) for x in r] for r in intent['nu']], float)
@@ -881,6 +931,8 @@ def run_impl(case: Case) -> ImplResult:
             tags.add('def:' + kv(toks, 'def'))
             if kv(toks, 'basis') == 'wt': tags.add('def:on-weight-basis')
             if kv(toks, 'correct') == '1': tags.add('balance:constructor-flag')
+        elif toks[0] == 'repkg':
+            tags.add('repkg')
         elif toks[0] == 'balance':
             cs = kv(toks, 'constants', '-')
             tags.add('balance:constants-' + ('default' if cs == '-' else ('two' if ',' in cs else 'one')))
@@ -1210,7 +1262,7 @@ def gen_rxn(rng, name, k, phases, intent_out, force_basis=None, exact_bias=False
     for u, c in d_true.items():
         row = pt.index(phase_of[u]) if phase_of else 0
         nu[row][ids.index(u)] = F(float(c)) if not rebalance else c
-    intent_out[name] = {'nu': [[str(x) for x in r] for r in nu], 'basis': 'mol'}
+    intent_out[name] = {'nu': [[str(x) for x in r] for r in nu], 'basis': 'mol', 'reactant': ru}
     if rebalance:
         xs = ';'.join(','.join(str(x) for x in r) for r in nu)
         if rebalance == 'ctor':
@@ -1240,7 +1292,7 @@ def gen_rxn(rng, name, k, phases, intent_out, force_basis=None, exact_bias=False
             row = pt.index(phase_of[u]) if phase_of else 0
             nuw[row][ids.index(u)] = c
         intent_out[name] = {'nu': [[str(x) for x in r] for r in nuw], 'basis': 'wt',
-                            'plan': [[str(x) for x in r] for r in nu]}
+                            'plan': [[str(x) for x in r] for r in nu], 'reactant': ru}
     elif basis == 'wt':
         ops.append(f'setbasis {name} wt')
         if rng.random() < 0.1:
@@ -1312,7 +1364,7 @@ def _top_up(rng, node, rx, feed, margin):
     return feed, _plan_apply(node, rx, feed)
 
 
-MALFORMED = (['noreactant', 'auto-many', 'basis-mix', 'phase-kw'] + ['late-basis'] * 3 +
+MALFORMED = (['noreactant', 'auto-many', 'basis-mix', 'phase-kw'] + ['late-basis'] * 3 + ['both-sides'] * 2 +
              ['x-out', 'stream-phase', 'stream-extra', 'pkg-missing'] * 2 + ['asis', 'short'] * 3)
 
 
@@ -1414,6 +1466,16 @@ def gen_case(rng):
             late_ops = [f'setbasis {late} {other_b}']
     # ---- malformed definitions live next to the target so that the calls below still run
     extra = []
+    dup_names = []
+    # ---- the reaction is moved to another property package with the public reset_chemicals (single reactions)
+    rk_orig = rk
+    if shape == 'single' and not mal and not origs and rng.random() < 0.25:
+        touched0 = {u for (_, d, _, _) in defs for u in d}
+        knows0 = [k for k in PKGS if PKGS[k]['ids'] != PKGS[rk]['ids'] and touched0 <= set(PKGS[k]['ids'])]
+        if knows0:
+            rk = rng.choice(knows0)
+            body.append(f'repkg {target} {rk}')
+            if rk not in used_pkgs: used_pkgs.append(rk)
     if mal in ('noreactant', 'auto-many', 'phase-kw'):
         o, *_ = gen_rxn(rng, 'rb', rk, phases, {}, None, exact_bias, mal)
         extra += o
@@ -1421,14 +1483,48 @@ def gen_case(rng):
         if mal == 'phase-kw':
             extra.append(f'call rb stream pkg={rk} ph={"".join(sorted(phases))} '
                          f'rows={frows([[1.0] * len(PKGS[rk]["ids"])] * len(phases))}')
+    elif mal == 'both-sides':
+        # a chemical written twice — on both sides of the arrow or twice on one side: the parsers must refuse
+        # (`chemicals can only appear once in a reaction`), never merge or overwrite
+        dd = gen_stoich(rng, PKGS[rk]['ids'], True)
+        us = sorted(dd)
+        u = rng.choice(us)
+        ph_of = {v: rng.choice(phases) for v in us} if phases else None
+        nm = lambda v: U[v].ID + (',' + ph_of[v] if ph_of else '')
+        def term(v, c):
+            c = abs(c)
+            return (dec_str(rng, c) + ' ' if c != 1 else '') + nm(v)
+        left = [term(v, c) for v, c in dd.items() if c < 0]
+        right = [term(v, c) for v, c in dd.items() if c > 0]
+        extra_c = rng.choice([F(1), F(2), F(1, 2), F(3)])
+        where = rng.random()
+        if where < 0.7:
+            (right if dd[u] < 0 else left).append(term(u, extra_c))      # on both sides of the arrow
+        else:
+            (left if dd[u] < 0 else right).append(term(u, extra_c))      # twice on its own side
+        rng.shuffle(left); rng.shuffle(right)
+        rr = rng.choice([v for v in us if dd[v] < 0])
+        kwp = ''.join(sorted(phases)) if phases else '-'
+        extra.append(f'rxn rb pkg={rk} basis=mol X=1/2 r={U[rr].ID} phases={kwp} def=str | '
+                     f'{" + ".join(left)} -> {" + ".join(right)}')
+        dup_names.append('rb')
     elif mal == 'basis-mix':
         o, *_ = gen_rxn(rng, 'rb', rk, phases, {}, 'wt', exact_bias)
         o2, *_ = gen_rxn(rng, 'rc', rk, phases, {}, 'mol', exact_bias)
         extra += o + o2 + [f'{rng.choice(["par", "ser", "sys"])} pb rb,rc']
     # ---- calls
-    rids = PKGS[rk]['ids']
+    rids = PKGS[rk_orig]['ids']
+    now_ids = PKGS[rk]['ids']
     n = len(rids)
     nrows = max(1, len(pts[0]))
+    def relayout(rows):
+        """rows in the layout of the package the reaction was defined on → its current package"""
+        if rk == rk_orig: return rows
+        out = [[0.0] * len(now_ids) for _ in rows]
+        for i_, row in enumerate(rows):
+            for j_, x in enumerate(row):
+                if x and rids[j_] in now_ids: out[i_][now_ids.index(rids[j_])] = x
+        return out
     rx = [_plan_rxn(intent, name, ru, X, rids, nrows) for (name, d, ru, X) in defs]
     plannable = all(r is not None for r in rx) and all(pt == pts[0] for pt in pts)
     touched = {u for (_, d, _, _) in defs for u in d}
@@ -1495,12 +1591,12 @@ def gen_case(rng):
             # imol.data / imass.data / the flows of one phase of a MultiStream
             sel = 'mass' if basis == 'wt' else 'mol'
             if phases:
-                calls.append(f'call {target} view sel={sel} ph={"".join(sorted(phases))}{mode} rows={frows(base)}')
+                calls.append(f'call {target} view sel={sel} ph={"".join(sorted(phases))}{mode} rows={frows(relayout(base))}')
             elif rng.random() < 0.35:
                 own = rng.choice(PHASE_SETS)
-                calls.append(f'call {target} view sel={sel} ph={rng.choice(own)} own={own}{mode} rows={frows(base)}')
+                calls.append(f'call {target} view sel={sel} ph={rng.choice(own)} own={own}{mode} rows={frows(relayout(base))}')
             else:
-                calls.append(f'call {target} view sel={sel} ph={rng.choice("lgs")}{mode} rows={frows(base)}')
+                calls.append(f'call {target} view sel={sel} ph={rng.choice("lgs")}{mode} rows={frows(relayout(base))}')
         elif mk == 'arr':
             how = 'sp' if rng.random() < 0.25 else 'nd'
             if mode != ' mode=conversion' and basis == 'mol' and all(float(x).is_integer() for r in base for x in r) \
@@ -1510,9 +1606,9 @@ def gen_case(rng):
                 how = 'list'                      # a plain Python list
             if basis == 'wt' and not mal:
                 # an array handed to a weight-basis object holds masses
-                MWr = [float(x) for x in PKGS[rk]['chems'].MW]
+                MWr = [float(x) for x in PKGS[rk_orig]['chems'].MW]
                 base = [[x * m for x, m in zip(row, MWr)] for row in base]
-            calls.append(f'call {target} arr as={how}{mode} rows={frows(base)}')
+            calls.append(f'call {target} arr as={how}{mode} rows={frows(relayout(base))}')
         else:
             rows = [[0.0] * len(sids) for _ in range(n_srows)]
             for i in range(min(nrows, n_srows)):
@@ -1541,6 +1637,7 @@ def gen_case(rng):
         calls = first + late_ops + alone + calls + tail
     ops = [f'pkg {k}' for k in used_pkgs] + body + extra + calls
     meta = {'intent': intent}
+    if dup_names: meta['dup'] = dup_names
     if mal: meta['malformed'] = mal
     return Case(ops, meta)
 
